@@ -149,6 +149,11 @@ where
         }
         Ok(Err(err)) => {
             clean_on_error();
+            // All the elements have been dropped, only the allocation remains to be released
+            unsafe {
+                manually_drop.set_len(0);
+                ManuallyDrop::drop(&mut manually_drop);
+            }
             Err(err)
         }
         Err(err) => {
